@@ -11,3 +11,25 @@ func VerifSyncSegMeta(ids []int64) int {
 	}
 	return n
 }
+
+// VerifQueryTables lists the qids in the running table and in the waiting queue.
+func VerifQueryTables() (running []uint64, waiting []uint64) {
+	arqMapLock.RLock()
+	for qid := range allRunningQueries {
+		running = append(running, qid)
+	}
+	arqMapLock.RUnlock()
+	waitingQueriesLock.Lock()
+	for _, ws := range waitingQueries {
+		waiting = append(waiting, ws.qid)
+	}
+	waitingQueriesLock.Unlock()
+	return
+}
+
+// VerifSetMaxRunning sets the admission limit (production derives it from the memory configuration) and returns the old one.
+func VerifSetMaxRunning(n uint64) uint64 {
+	old := MAX_RUNNING_QUERIES
+	MAX_RUNNING_QUERIES = n
+	return old
+}
